@@ -446,6 +446,10 @@ def ctl_request(spec, rec):
                     elif pre["generations"] >= 1:
                         own = 1
                 dS = own
+            if solver == "DE2" and ran and len(rec.trials) and dE != (sn["n_cost_calls"] - pre["n_cost_calls"]) and prev is not None and prev["maxfun"] in (None, "*"):
+                # the counter restart below happens INSIDE `_Step`, after this Step resolved a pending default limit
+                # from the old counter: an order the `setevals` device cannot express - the replay stops here
+                break
             if solver == "DE2" and ran and len(rec.trials) and dE != (sn["n_cost_calls"] - pre["n_cost_calls"]):
                 # DE2 re-reads its counter from len(evaluation monitor) (or counts finite energies without one): the
                 # counter is an observation of the monitor, not an accumulation (known findings F21 / F21b)
